@@ -18,6 +18,17 @@ for d in sorted(glob.glob(os.path.join(VERIF, "seeded", "*"))):
                                               ("**FALSE ALARM: " + ", ".join(fa) + "**") if fa else ("no alarm" if not m.get("error") else m["error"][:80])))
         continue
     checks = m.get("my_checks") or {}
+    # the latest regression sweep (bin/seedregress.py) overrides the verdict recorded when the change was first tested
+    try:
+        rg = json.load(open(os.path.join(d, "regress.json")))
+        if rg.get("checks"):
+            checks = {c: {"exit": v.get("exit"), "lines": [v.get("line", "")]} for c, v in rg["checks"].items()}
+    except Exception:
+        pass
+    if m.get("neutralised"):
+        summ = (m.get("summary") or "").replace("\n", " ").replace("|", "/")[:257]
+        rows.append("| %s | %s | %s | %s | %s |" % (name, summ, "", "n/a", "no longer a violation: " + m["neutralised"]))
+        continue
     if isinstance(checks, dict):
         caught = [c for c, v in checks.items() if isinstance(v, dict) and v.get("exit") == 1]
         nf = [c for c, v in checks.items() if isinstance(v, dict) and any("no-failing-input-found" in l for l in v.get("lines", []))]
